@@ -185,6 +185,8 @@ impl Decoder for Codec {
                     }
                 }
                 DecodeState::PublishProperties(props_len, fixed) => {
+                    // variable header and properties must fit into the frame
+                    ensure!(fixed.remaining_length >= props_len, DecodeError::InvalidLength);
                     if src.len() < props_len as usize {
                         return Ok(None);
                     }
